@@ -22,7 +22,7 @@ import (
 // crash is attributed to the request it was serving, and a new worker starts.
 
 // ids whose exclusion matters inside child processes
-var allKnownIDs = []string{kfF2, kfF4, kfF16, kfF17, kfF17b, kfF18, kfF19, kfF20, kfF21, kfF22, kfF23, kfF24, kfF25}
+var allKnownIDs = []string{kfF2, kfF4, kfF16, kfF17, kfF17b, kfF18, kfF19, kfF20, kfF21, kfF22, kfF23, kfF24, kfF25, kfF30}
 
 // isExcluded: vk.Excluded in the parent; in a child process (which runs no
 // probes) the list handed over by the parent. Exclusions applied inside a child
